@@ -408,3 +408,19 @@ Theorem c17_headers_map_agrees_with_write : forall f e cap,
 Proof. exact headers_map_err_write_err. Qed.
 Print Assumptions c17_headers_map_refuses.
 Print Assumptions c17_headers_map_agrees_with_write.
+
+(* ================================================================== the request analysis' code itself (translated from the source) *)
+(** [AmendedRequest::analyze] (src/client/amended.rs) -- every rejection rule of this property and the choice of the body's framing --
+    is translated on every run by tools/rs2coq2.py (theories/Gen2.v, [gen_analyze]; version and method are values, the two header
+    accessors of the struct are function parameters, [verify_version] / [need_request_body] / [compare_lowercase_ascii] are the
+    translations of src/ext.rs and src/util.rs).  proofs/Gen2_equiv_analyze.v proves it EQUAL to the model's [analyze] for every
+    request: same error variant in the same precedence, same framing, same two flags.  So c17_iff and c17_invalid_classes above are
+    statements about the code as it is in the repository now; dropping a rule, changing a count bound or the precedence of chunked over
+    a length changes Gen2.v and the equality no longer holds.  Trusted: the translator; HeaderValue::to_str as "visible ASCII or tab". *)
+From Hoot Require Import GenLib Gen2.
+From Hoot.proofs Require Import Gen2_equiv_analyze.
+Theorem c17_code_analyze : forall a wanted skip,
+  gen_analyze (am_version a) (am_method a) (get_all (am_headers a)) (fun n => first_of (get_all (am_headers a) n)) wanted skip
+  = lift_info (analyze a wanted skip).
+Proof. exact gen_analyze_eq. Qed.
+Print Assumptions c17_code_analyze.
